@@ -57,7 +57,7 @@ func (u *Unknown) ReadFrom(r io.Reader) (int64, error) {
 	buf := make([]byte, codeSize+sizeSize+int(size))
 	varint.PutUvarint(buf, v)
 	varint.PutUvarint(buf[codeSize:], size)
-	n, err := r.Read(buf[codeSize+sizeSize:])
+	n, err := io.ReadFull(r, buf[codeSize+sizeSize:])
 	readLen := codeSize + sizeSize + n
 	if err != nil {
 		u.Payload = buf[:readLen]
